@@ -182,6 +182,23 @@ class Oracle:
                             continue
                         if what == "media":
                             self.check_error_time(doc, ctype, rep, args, url)
+                        if mode == "live" and doc.mpd.ast_us is not None:
+                            # "the same meaning": the availability start the media endpoint resolves must be the
+                            # instant the manifest announced, whatever the clock shows when the segment is asked for
+                            sim.check("c07-start-pinned")
+                            v = getattr(media_opts, "availabilityStartTime", None)
+                            if isinstance(v, str) and v != "epoch":
+                                sim.violate("start-depends-on-clock", f"{ctype}/{what}",
+                                            f"the {ctype} {what} URL resolves start={v!r}, which changes with the clock; "
+                                            f"the manifest announced {doc.mpd.attrib.get('availabilityStartTime')}; "
+                                            f"{url[:160]!r}; manifest {doc.url[:200]}")
+                            elif hasattr(v, "timestamp"):
+                                from .. import clock as _c
+                                got_us = _c.SimClock.parse(v.isoformat())
+                                if got_us != doc.mpd.ast_us:
+                                    sim.violate("start-differs-from-mpd", f"{ctype}/{what}",
+                                                f"the {ctype} {what} URL resolves start={v.isoformat()}, the manifest "
+                                                f"announced {doc.mpd.attrib.get('availabilityStartTime')}; {doc.url[:200]}")
                         for opt in OptionsRepository.get_dash_options():
                             if opt.full_name in ("mode",):
                                 continue
